@@ -304,6 +304,9 @@ type WriteFault struct {
 // WritePlan is the behaviour of a sink.
 type WritePlan struct {
 	Fault *WriteFault `json:"fault,omitempty"`
+	// Medium: "" / "plain": io.Writer only; "rich": also io.StringWriter, io.ByteWriter and io.ReaderFrom
+	// (what *os.File, *bufio.Writer and *bytes.Buffer offer), all subject to the same fault.
+	Medium string `json:"medium,omitempty"`
 }
 
 // Writer is the simulated sink.
@@ -318,6 +321,8 @@ type Writer struct {
 	Hook   Hook
 	Writes int
 	Fired  map[string]int
+	// RichCalls counts calls that came in through an optional interface of the rich medium.
+	RichCalls int
 }
 
 // NewWriter builds a sink.
@@ -356,3 +361,45 @@ func (w *Writer) Write(p []byte) (n int, err error) {
 
 // FaultFired reports whether the planned fault was injected.
 func (w *Writer) FaultFired() bool { return w.fired }
+
+type richWriter struct{ w *Writer }
+
+func (r richWriter) Write(p []byte) (int, error)       { return r.w.Write(p) }
+func (r richWriter) WriteString(s string) (int, error) { r.w.RichCalls++; return r.w.Write([]byte(s)) }
+func (r richWriter) WriteByte(c byte) error {
+	r.w.RichCalls++
+	_, err := r.w.Write([]byte{c})
+	return err
+}
+func (r richWriter) ReadFrom(src io.Reader) (n int64, err error) {
+	r.w.RichCalls++
+	buf := make([]byte, 512)
+	for {
+		m, rerr := src.Read(buf)
+		if m > 0 {
+			k, werr := r.w.Write(buf[:m])
+			n += int64(k)
+			if werr != nil {
+				return n, werr
+			}
+		}
+		if rerr == io.EOF {
+			return n, nil
+		}
+		if rerr != nil {
+			return n, rerr
+		}
+	}
+}
+
+type plainWriter struct{ w *Writer }
+
+func (p plainWriter) Write(b []byte) (int, error) { return p.w.Write(b) }
+
+// Wrap presents the sink to the library the way the plan's Medium says.
+func (w *Writer) Wrap() io.Writer {
+	if w.plan.Medium == "rich" {
+		return richWriter{w}
+	}
+	return plainWriter{w}
+}
